@@ -107,8 +107,11 @@ pub fn maybe_add_change_output(
 
 /// Estimate the feerate for an HTLC transaction
 pub(crate) fn estimate_feerate_per_kw(total_fee: u64, weight: u64) -> u32 {
-    // we want the highest feerate that can give rise to this total fee
-    (((total_fee * 1000) + 999) / weight) as u32
+    // we want the highest feerate that can give rise to this total fee;
+    // compute in u128 (total_fee * 1000 cannot overflow) and saturate instead of
+    // truncating, so that an out-of-range rate can never read as an in-range one
+    let rate = (total_fee as u128 * 1000 + 999) / weight as u128;
+    u32::try_from(rate).unwrap_or(u32::MAX)
 }
 
 pub(crate) fn add_holder_sig(
